@@ -75,6 +75,8 @@ func ExecSchema(r *rand.Rand, o SchemaOpts) *model.Schema {
 			for j, m := 0, 1+r.Intn(2); j < m; j++ {
 				it.Fields = append(it.Fields, &model.FieldDef{Name: fmt.Sprintf("if%d_%d", i, j), Type: wrapLeaf(r, leafs[r.Intn(len(leafs))])})
 			}
+			// a field typed by the interface itself: implementers declare it covariantly with their own type
+			it.Fields = append(it.Fields, &model.FieldDef{Name: fmt.Sprintf("twin%d", i), Type: model.Named(it.Name)})
 			ifaces = append(ifaces, it)
 			s.Types = append(s.Types, it)
 		}
@@ -88,7 +90,11 @@ func ExecSchema(r *rand.Rand, o SchemaOpts) *model.Schema {
 			if r.Intn(2) == 0 {
 				ot.Interfaces = append(ot.Interfaces, it.Name)
 				for _, f := range it.Fields {
-					ot.Fields = append(ot.Fields, &model.FieldDef{Name: f.Name, Type: f.Type})
+					ft := f.Type
+					if f.Type.Name == it.Name && !f.Type.List && !f.Type.NonNull && r.Intn(3) != 0 {
+						ft = model.Named(ot.Name) // covariant: the implementer's own type
+					}
+					ot.Fields = append(ot.Fields, &model.FieldDef{Name: f.Name, Type: ft})
 				}
 			}
 		}
@@ -175,6 +181,7 @@ func ExecSchema(r *rand.Rand, o SchemaOpts) *model.Schema {
 	}
 	q.Fields = append(q.Fields, &model.FieldDef{Name: "hello", Type: model.Named("String")})
 	q.Fields = append(q.Fields, &model.FieldDef{Name: "self", Type: model.Named("Query")})
+	q.Fields = append(q.Fields, &model.FieldDef{Name: "selfReq", Type: model.NonNullOf(model.Named("Query"))})
 	if o.Args {
 		for i, n := 0, 1+r.Intn(3); i < n; i++ {
 			f := &model.FieldDef{Name: fmt.Sprintf("echo%d", i), Type: model.Named("String"), Echo: true}
